@@ -47,6 +47,11 @@ CHECKS = {
         technique="runtime monitor over recorded replies: parts read from exact raw values, the four decomposition laws recomputed in exact arithmetic from the dumped unit values",
         text="Seeded unit lists of 2..6 conformable units from every dimensionality class (descending/ascending/repeated/random order, both separators) with zero/tiny/huge/random/near-multiple values of both signs, and time values through the automatic year..second breakdown; exact sum, integral non-final parts, common sign and bounded remainders are checked, and non-conformable lists/values must be refused.",
         note="Only positive exact-valued units are listed; printed per-entry numerals are judged by C06."),
+    "C10": dict(
+        category="exploration", design_ref="DESIGN.md §2 C10",
+        technique="runtime reference-model monitor: textbook affine maps in exact arithmetic vs the real evaluator, per spelling; chains fed by exact replies",
+        text="All 36 ordered scale pairs x all 26x26 spelling pairs systematically, plus seeded random (x, pair, spelling) triples with x from absolute zero, 10^+-30, 60-digit decimals and random rationals: operator value, conversion value, A->A identity and chains of 2..6 conversions must agree exactly with the textbook formulas; dimensioned operands, compound targets and non-temperature sources must be refused.",
+        note="The textbook constants are the oracle's; holds for the x values generated, not for all rationals."),
     "C12": dict(
         category="exploration", design_ref="DESIGN.md §2 C12",
         technique="runtime history-invariant monitor: the same definition multiset loaded by the real loader in many orders and file splits; canonical registry dumps compared byte for byte",
